@@ -179,6 +179,11 @@ def configs(tier):
                                                          round_ints=round_ints, K=K)))
                             out.append(("requests", dict(layout=lay, m=2, fkind="linear", normalized=normalized, use_db=use_db, store_jac=store_jac,
                                                          round_ints=round_ints, K=K)))
+    # longer histories on a few layouts (three requests: a third request can hit either of two recorded points)
+    for lay in (["B", "BE"] if tier == "quick" else []):
+        for normalized in (True, False):
+            for store_jac in (True, False):
+                out.append(("requests", dict(layout=lay, m=1, normalized=normalized, use_db=True, store_jac=store_jac, round_ints=True, K=3)))
     return out
 
 
